@@ -197,3 +197,25 @@ package slip
 //@ func slip.coerceToBit
 //@   property C16
 //@   ensures type: is(result, Bit)
+
+// ---------------------------------------------------------------------------
+// C18: the Go data bridge. Plain Go data becomes the Lisp object of the
+// corresponding kind with the same value; a slice (also an empty one) becomes
+// a list with one element per element.
+//@ func slip.SimpleObject
+//@   property C18
+//@   ensures int: is(val, int) ==> (is(obj, Fixnum) && as(obj, Fixnum) == as(val, int))
+//@   ensures int8: is(val, int8) ==> (is(obj, Fixnum) && as(obj, Fixnum) == as(val, int8))
+//@   ensures int16: is(val, int16) ==> (is(obj, Fixnum) && as(obj, Fixnum) == as(val, int16))
+//@   ensures int32: is(val, int32) ==> (is(obj, Fixnum) && as(obj, Fixnum) == as(val, int32))
+//@   ensures int64: is(val, int64) ==> (is(obj, Fixnum) && as(obj, Fixnum) == as(val, int64))
+//@   ensures uint8: is(val, uint8) ==> (is(obj, Octet) && as(obj, Octet) == as(val, uint8))
+//@   ensures uint16: is(val, uint16) ==> (is(obj, Fixnum) && as(obj, Fixnum) == as(val, uint16))
+//@   ensures uint32: is(val, uint32) ==> (is(obj, Fixnum) && as(obj, Fixnum) == as(val, uint32))
+//@   ensures bool: is(val, bool) ==> ((obj != nil) <==> as(val, bool))
+//@   ensures string: is(val, string) ==> (is(obj, String) && as(obj, String) == as(val, string))
+//@   ensures float64: is(val, float64) ==> is(obj, DoubleFloat)
+//@   ensures float32: is(val, float32) ==> is(obj, SingleFloat)
+//@   ensures slice: is(val, slice_any) ==> (is(obj, List) && len(as(obj, List)) == len(as(val, slice_any)))
+//@   ensures map: is(val, map_string_any) ==> is(obj, List)
+//@   ensures nil: val == nil ==> obj == nil
